@@ -127,8 +127,13 @@ def big_cases(draw):
         stmt = {"op": "child", "body": [stmt]}
     body = [{"op": "try", "body": stmt, "catch": ["Exception"], "handler": []},
             {"op": "step", "beh": {"kind": "ret", "v": to_tagged("after")}, "sem": "least", "retry": {"kind": "none"}, "sleep": 1.0}]
+    replayed = draw(st.booleans())
+    if replayed:
+        # the early-decided call is recorded with ReplayChildren (patched limit) and replayed by a later invocation: the
+        # branches that were unfinished at decision time must stay untouched then
+        body += [{"op": "wait", "secs": 2}, {"op": "step", "beh": {"kind": "ret", "v": to_tagged("later")}, "sem": "least", "retry": {"kind": "none"}}]
     return {"prog": {"body": body}, "backend": {"response": "delta", "api_latency": draw(st.sampled_from([0.1, 0.2, 0.4]))}, "plan": {"crashes": []},
-            "sched": draw(G.schedules()), "line": []}
+            **({"limits": {"checkpoint": 300}} if replayed else {}), "sched": draw(G.schedules()), "line": []}
 
 
 def _big_stage(ctx):
